@@ -621,6 +621,11 @@ func hangSig(ep, dump string) string {
 			blk = blk[:j]
 		}
 		for _, name := range frames(blk) {
+			// leaf helpers (the LRU cache every appendable uses) are where a caller's loop is
+			// sampled most of the time: name the caller, so that one loop gets one signature
+			if strings.HasPrefix(name, "github.com/codenotary/immudb/embedded/cache.") || strings.Contains(name, "Cache.") {
+				continue
+			}
 			if strings.HasPrefix(name, "github.com/codenotary/immudb/") {
 				return strings.TrimPrefix(name, "github.com/codenotary/immudb/") + "/hang"
 			}
